@@ -530,7 +530,8 @@ fn c02_int_u128_enum2() {
 #[kani::unwind(18)]
 #[kani::stub(alloc::fmt::format, crate::verif::stub_format)]
 fn c02_int_i8_decb0() {
-	cell_int::<i8>(kani::any(), &nodes::DEC_BYTES_S0, IntKind::DecBytes(0));
+	crate::verif::stack_node!(d = nodes::dec_bytes(0));
+	cell_int::<i8>(kani::any(), d, IntKind::DecBytes(0));
 }
 
 // @harness props=C02,C01 tier=thorough timeout=900
@@ -539,7 +540,8 @@ fn c02_int_i8_decb0() {
 #[kani::unwind(18)]
 #[kani::stub(alloc::fmt::format, crate::verif::stub_format)]
 fn c02_int_i16_decb0() {
-	cell_int::<i16>(kani::any(), &nodes::DEC_BYTES_S0, IntKind::DecBytes(0));
+	crate::verif::stack_node!(d = nodes::dec_bytes(0));
+	cell_int::<i16>(kani::any(), d, IntKind::DecBytes(0));
 }
 
 // @harness props=C02,C01 tier=quick timeout=900
@@ -548,7 +550,8 @@ fn c02_int_i16_decb0() {
 #[kani::unwind(18)]
 #[kani::stub(alloc::fmt::format, crate::verif::stub_format)]
 fn c02_int_i32_decb0() {
-	cell_int::<i32>(kani::any(), &nodes::DEC_BYTES_S0, IntKind::DecBytes(0));
+	crate::verif::stack_node!(d = nodes::dec_bytes(0));
+	cell_int::<i32>(kani::any(), d, IntKind::DecBytes(0));
 }
 
 // @harness props=C02,C01 tier=quick timeout=900
@@ -557,7 +560,8 @@ fn c02_int_i32_decb0() {
 #[kani::unwind(18)]
 #[kani::stub(alloc::fmt::format, crate::verif::stub_format)]
 fn c02_int_i64_decb0() {
-	cell_int::<i64>(kani::any(), &nodes::DEC_BYTES_S0, IntKind::DecBytes(0));
+	crate::verif::stack_node!(d = nodes::dec_bytes(0));
+	cell_int::<i64>(kani::any(), d, IntKind::DecBytes(0));
 }
 
 // @harness props=C02,C01 tier=quick timeout=900
@@ -566,7 +570,8 @@ fn c02_int_i64_decb0() {
 #[kani::unwind(18)]
 #[kani::stub(alloc::fmt::format, crate::verif::stub_format)]
 fn c02_int_i128_decb0() {
-	cell_int::<i128>(kani::any(), &nodes::DEC_BYTES_S0, IntKind::DecBytes(0));
+	crate::verif::stack_node!(d = nodes::dec_bytes(0));
+	cell_int::<i128>(kani::any(), d, IntKind::DecBytes(0));
 }
 
 // @harness props=C02,C01 tier=quick timeout=900
@@ -575,7 +580,8 @@ fn c02_int_i128_decb0() {
 #[kani::unwind(18)]
 #[kani::stub(alloc::fmt::format, crate::verif::stub_format)]
 fn c02_int_u8_decb0() {
-	cell_int::<u8>(kani::any(), &nodes::DEC_BYTES_S0, IntKind::DecBytes(0));
+	crate::verif::stack_node!(d = nodes::dec_bytes(0));
+	cell_int::<u8>(kani::any(), d, IntKind::DecBytes(0));
 }
 
 // @harness props=C02,C01 tier=thorough timeout=900
@@ -584,7 +590,8 @@ fn c02_int_u8_decb0() {
 #[kani::unwind(18)]
 #[kani::stub(alloc::fmt::format, crate::verif::stub_format)]
 fn c02_int_u16_decb0() {
-	cell_int::<u16>(kani::any(), &nodes::DEC_BYTES_S0, IntKind::DecBytes(0));
+	crate::verif::stack_node!(d = nodes::dec_bytes(0));
+	cell_int::<u16>(kani::any(), d, IntKind::DecBytes(0));
 }
 
 // @harness props=C02,C01 tier=thorough timeout=900
@@ -593,7 +600,8 @@ fn c02_int_u16_decb0() {
 #[kani::unwind(18)]
 #[kani::stub(alloc::fmt::format, crate::verif::stub_format)]
 fn c02_int_u32_decb0() {
-	cell_int::<u32>(kani::any(), &nodes::DEC_BYTES_S0, IntKind::DecBytes(0));
+	crate::verif::stack_node!(d = nodes::dec_bytes(0));
+	cell_int::<u32>(kani::any(), d, IntKind::DecBytes(0));
 }
 
 // @harness props=C02,C01 tier=quick timeout=900
@@ -602,7 +610,8 @@ fn c02_int_u32_decb0() {
 #[kani::unwind(18)]
 #[kani::stub(alloc::fmt::format, crate::verif::stub_format)]
 fn c02_int_u64_decb0() {
-	cell_int::<u64>(kani::any(), &nodes::DEC_BYTES_S0, IntKind::DecBytes(0));
+	crate::verif::stack_node!(d = nodes::dec_bytes(0));
+	cell_int::<u64>(kani::any(), d, IntKind::DecBytes(0));
 }
 
 // @harness props=C02,C01 tier=thorough timeout=900
@@ -611,7 +620,8 @@ fn c02_int_u64_decb0() {
 #[kani::unwind(18)]
 #[kani::stub(alloc::fmt::format, crate::verif::stub_format)]
 fn c02_int_u128_decb0() {
-	cell_int::<u128>(kani::any(), &nodes::DEC_BYTES_S0, IntKind::DecBytes(0));
+	crate::verif::stack_node!(d = nodes::dec_bytes(0));
+	cell_int::<u128>(kani::any(), d, IntKind::DecBytes(0));
 }
 
 // @harness props=C02,C01 tier=thorough timeout=900
@@ -620,7 +630,8 @@ fn c02_int_u128_decb0() {
 #[kani::unwind(18)]
 #[kani::stub(alloc::fmt::format, crate::verif::stub_format)]
 fn c02_int_i8_decb2() {
-	cell_int::<i8>(kani::any(), &nodes::DEC_BYTES_S2, IntKind::DecBytes(2));
+	crate::verif::stack_node!(d = nodes::dec_bytes(2));
+	cell_int::<i8>(kani::any(), d, IntKind::DecBytes(2));
 }
 
 // @harness props=C02,C01 tier=thorough timeout=900
@@ -629,7 +640,8 @@ fn c02_int_i8_decb2() {
 #[kani::unwind(18)]
 #[kani::stub(alloc::fmt::format, crate::verif::stub_format)]
 fn c02_int_i16_decb2() {
-	cell_int::<i16>(kani::any(), &nodes::DEC_BYTES_S2, IntKind::DecBytes(2));
+	crate::verif::stack_node!(d = nodes::dec_bytes(2));
+	cell_int::<i16>(kani::any(), d, IntKind::DecBytes(2));
 }
 
 // @harness props=C02,C01 tier=quick timeout=900
@@ -638,7 +650,8 @@ fn c02_int_i16_decb2() {
 #[kani::unwind(18)]
 #[kani::stub(alloc::fmt::format, crate::verif::stub_format)]
 fn c02_int_i32_decb2() {
-	cell_int::<i32>(kani::any(), &nodes::DEC_BYTES_S2, IntKind::DecBytes(2));
+	crate::verif::stack_node!(d = nodes::dec_bytes(2));
+	cell_int::<i32>(kani::any(), d, IntKind::DecBytes(2));
 }
 
 // @harness props=C02,C01 tier=quick timeout=900
@@ -647,7 +660,8 @@ fn c02_int_i32_decb2() {
 #[kani::unwind(18)]
 #[kani::stub(alloc::fmt::format, crate::verif::stub_format)]
 fn c02_int_i64_decb2() {
-	cell_int::<i64>(kani::any(), &nodes::DEC_BYTES_S2, IntKind::DecBytes(2));
+	crate::verif::stack_node!(d = nodes::dec_bytes(2));
+	cell_int::<i64>(kani::any(), d, IntKind::DecBytes(2));
 }
 
 // @harness props=C02,C01 tier=quick timeout=900
@@ -656,7 +670,8 @@ fn c02_int_i64_decb2() {
 #[kani::unwind(18)]
 #[kani::stub(alloc::fmt::format, crate::verif::stub_format)]
 fn c02_int_i128_decb2() {
-	cell_int::<i128>(kani::any(), &nodes::DEC_BYTES_S2, IntKind::DecBytes(2));
+	crate::verif::stack_node!(d = nodes::dec_bytes(2));
+	cell_int::<i128>(kani::any(), d, IntKind::DecBytes(2));
 }
 
 // @harness props=C02,C01 tier=quick timeout=900
@@ -665,7 +680,8 @@ fn c02_int_i128_decb2() {
 #[kani::unwind(18)]
 #[kani::stub(alloc::fmt::format, crate::verif::stub_format)]
 fn c02_int_u8_decb2() {
-	cell_int::<u8>(kani::any(), &nodes::DEC_BYTES_S2, IntKind::DecBytes(2));
+	crate::verif::stack_node!(d = nodes::dec_bytes(2));
+	cell_int::<u8>(kani::any(), d, IntKind::DecBytes(2));
 }
 
 // @harness props=C02,C01 tier=thorough timeout=900
@@ -674,7 +690,8 @@ fn c02_int_u8_decb2() {
 #[kani::unwind(18)]
 #[kani::stub(alloc::fmt::format, crate::verif::stub_format)]
 fn c02_int_u16_decb2() {
-	cell_int::<u16>(kani::any(), &nodes::DEC_BYTES_S2, IntKind::DecBytes(2));
+	crate::verif::stack_node!(d = nodes::dec_bytes(2));
+	cell_int::<u16>(kani::any(), d, IntKind::DecBytes(2));
 }
 
 // @harness props=C02,C01 tier=thorough timeout=900
@@ -683,7 +700,8 @@ fn c02_int_u16_decb2() {
 #[kani::unwind(18)]
 #[kani::stub(alloc::fmt::format, crate::verif::stub_format)]
 fn c02_int_u32_decb2() {
-	cell_int::<u32>(kani::any(), &nodes::DEC_BYTES_S2, IntKind::DecBytes(2));
+	crate::verif::stack_node!(d = nodes::dec_bytes(2));
+	cell_int::<u32>(kani::any(), d, IntKind::DecBytes(2));
 }
 
 // @harness props=C02,C01 tier=quick timeout=900
@@ -692,7 +710,8 @@ fn c02_int_u32_decb2() {
 #[kani::unwind(18)]
 #[kani::stub(alloc::fmt::format, crate::verif::stub_format)]
 fn c02_int_u64_decb2() {
-	cell_int::<u64>(kani::any(), &nodes::DEC_BYTES_S2, IntKind::DecBytes(2));
+	crate::verif::stack_node!(d = nodes::dec_bytes(2));
+	cell_int::<u64>(kani::any(), d, IntKind::DecBytes(2));
 }
 
 // @harness props=C02,C01 tier=thorough timeout=900
@@ -701,7 +720,8 @@ fn c02_int_u64_decb2() {
 #[kani::unwind(18)]
 #[kani::stub(alloc::fmt::format, crate::verif::stub_format)]
 fn c02_int_u128_decb2() {
-	cell_int::<u128>(kani::any(), &nodes::DEC_BYTES_S2, IntKind::DecBytes(2));
+	crate::verif::stack_node!(d = nodes::dec_bytes(2));
+	cell_int::<u128>(kani::any(), d, IntKind::DecBytes(2));
 }
 
 // @harness props=C02,C01 tier=thorough timeout=900
@@ -710,7 +730,8 @@ fn c02_int_u128_decb2() {
 #[kani::unwind(18)]
 #[kani::stub(alloc::fmt::format, crate::verif::stub_format)]
 fn c02_int_i8_decf0_0() {
-	cell_int::<i8>(kani::any(), &nodes::DEC_FIXED0_S0, IntKind::DecFixed(0, 0));
+	crate::verif::stack_node!(d = nodes::dec_fixed(0, 0));
+	cell_int::<i8>(kani::any(), d, IntKind::DecFixed(0, 0));
 }
 
 // @harness props=C02,C01 tier=thorough timeout=900
@@ -719,7 +740,8 @@ fn c02_int_i8_decf0_0() {
 #[kani::unwind(18)]
 #[kani::stub(alloc::fmt::format, crate::verif::stub_format)]
 fn c02_int_i16_decf0_0() {
-	cell_int::<i16>(kani::any(), &nodes::DEC_FIXED0_S0, IntKind::DecFixed(0, 0));
+	crate::verif::stack_node!(d = nodes::dec_fixed(0, 0));
+	cell_int::<i16>(kani::any(), d, IntKind::DecFixed(0, 0));
 }
 
 // @harness props=C02,C01 tier=thorough timeout=900
@@ -728,7 +750,8 @@ fn c02_int_i16_decf0_0() {
 #[kani::unwind(18)]
 #[kani::stub(alloc::fmt::format, crate::verif::stub_format)]
 fn c02_int_i32_decf0_0() {
-	cell_int::<i32>(kani::any(), &nodes::DEC_FIXED0_S0, IntKind::DecFixed(0, 0));
+	crate::verif::stack_node!(d = nodes::dec_fixed(0, 0));
+	cell_int::<i32>(kani::any(), d, IntKind::DecFixed(0, 0));
 }
 
 // @harness props=C02,C01 tier=thorough timeout=900
@@ -737,7 +760,8 @@ fn c02_int_i32_decf0_0() {
 #[kani::unwind(18)]
 #[kani::stub(alloc::fmt::format, crate::verif::stub_format)]
 fn c02_int_i64_decf0_0() {
-	cell_int::<i64>(kani::any(), &nodes::DEC_FIXED0_S0, IntKind::DecFixed(0, 0));
+	crate::verif::stack_node!(d = nodes::dec_fixed(0, 0));
+	cell_int::<i64>(kani::any(), d, IntKind::DecFixed(0, 0));
 }
 
 // @harness props=C02,C01 tier=thorough timeout=900
@@ -746,7 +770,8 @@ fn c02_int_i64_decf0_0() {
 #[kani::unwind(18)]
 #[kani::stub(alloc::fmt::format, crate::verif::stub_format)]
 fn c02_int_i128_decf0_0() {
-	cell_int::<i128>(kani::any(), &nodes::DEC_FIXED0_S0, IntKind::DecFixed(0, 0));
+	crate::verif::stack_node!(d = nodes::dec_fixed(0, 0));
+	cell_int::<i128>(kani::any(), d, IntKind::DecFixed(0, 0));
 }
 
 // @harness props=C02,C01 tier=thorough timeout=900
@@ -755,7 +780,8 @@ fn c02_int_i128_decf0_0() {
 #[kani::unwind(18)]
 #[kani::stub(alloc::fmt::format, crate::verif::stub_format)]
 fn c02_int_u8_decf0_0() {
-	cell_int::<u8>(kani::any(), &nodes::DEC_FIXED0_S0, IntKind::DecFixed(0, 0));
+	crate::verif::stack_node!(d = nodes::dec_fixed(0, 0));
+	cell_int::<u8>(kani::any(), d, IntKind::DecFixed(0, 0));
 }
 
 // @harness props=C02,C01 tier=thorough timeout=900
@@ -764,7 +790,8 @@ fn c02_int_u8_decf0_0() {
 #[kani::unwind(18)]
 #[kani::stub(alloc::fmt::format, crate::verif::stub_format)]
 fn c02_int_u16_decf0_0() {
-	cell_int::<u16>(kani::any(), &nodes::DEC_FIXED0_S0, IntKind::DecFixed(0, 0));
+	crate::verif::stack_node!(d = nodes::dec_fixed(0, 0));
+	cell_int::<u16>(kani::any(), d, IntKind::DecFixed(0, 0));
 }
 
 // @harness props=C02,C01 tier=thorough timeout=900
@@ -773,7 +800,8 @@ fn c02_int_u16_decf0_0() {
 #[kani::unwind(18)]
 #[kani::stub(alloc::fmt::format, crate::verif::stub_format)]
 fn c02_int_u32_decf0_0() {
-	cell_int::<u32>(kani::any(), &nodes::DEC_FIXED0_S0, IntKind::DecFixed(0, 0));
+	crate::verif::stack_node!(d = nodes::dec_fixed(0, 0));
+	cell_int::<u32>(kani::any(), d, IntKind::DecFixed(0, 0));
 }
 
 // @harness props=C02,C01 tier=thorough timeout=900
@@ -782,7 +810,8 @@ fn c02_int_u32_decf0_0() {
 #[kani::unwind(18)]
 #[kani::stub(alloc::fmt::format, crate::verif::stub_format)]
 fn c02_int_u64_decf0_0() {
-	cell_int::<u64>(kani::any(), &nodes::DEC_FIXED0_S0, IntKind::DecFixed(0, 0));
+	crate::verif::stack_node!(d = nodes::dec_fixed(0, 0));
+	cell_int::<u64>(kani::any(), d, IntKind::DecFixed(0, 0));
 }
 
 // @harness props=C02,C01 tier=thorough timeout=900
@@ -791,7 +820,8 @@ fn c02_int_u64_decf0_0() {
 #[kani::unwind(18)]
 #[kani::stub(alloc::fmt::format, crate::verif::stub_format)]
 fn c02_int_u128_decf0_0() {
-	cell_int::<u128>(kani::any(), &nodes::DEC_FIXED0_S0, IntKind::DecFixed(0, 0));
+	crate::verif::stack_node!(d = nodes::dec_fixed(0, 0));
+	cell_int::<u128>(kani::any(), d, IntKind::DecFixed(0, 0));
 }
 
 // @harness props=C02,C01 tier=thorough timeout=900
@@ -800,7 +830,8 @@ fn c02_int_u128_decf0_0() {
 #[kani::unwind(18)]
 #[kani::stub(alloc::fmt::format, crate::verif::stub_format)]
 fn c02_int_i8_decf1_0() {
-	cell_int::<i8>(kani::any(), &nodes::DEC_FIXED1_S0, IntKind::DecFixed(1, 0));
+	crate::verif::stack_node!(d = nodes::dec_fixed(1, 0));
+	cell_int::<i8>(kani::any(), d, IntKind::DecFixed(1, 0));
 }
 
 // @harness props=C02,C01 tier=thorough timeout=900
@@ -809,7 +840,8 @@ fn c02_int_i8_decf1_0() {
 #[kani::unwind(18)]
 #[kani::stub(alloc::fmt::format, crate::verif::stub_format)]
 fn c02_int_i16_decf1_0() {
-	cell_int::<i16>(kani::any(), &nodes::DEC_FIXED1_S0, IntKind::DecFixed(1, 0));
+	crate::verif::stack_node!(d = nodes::dec_fixed(1, 0));
+	cell_int::<i16>(kani::any(), d, IntKind::DecFixed(1, 0));
 }
 
 // @harness props=C02,C01 tier=quick timeout=900
@@ -818,7 +850,8 @@ fn c02_int_i16_decf1_0() {
 #[kani::unwind(18)]
 #[kani::stub(alloc::fmt::format, crate::verif::stub_format)]
 fn c02_int_i32_decf1_0() {
-	cell_int::<i32>(kani::any(), &nodes::DEC_FIXED1_S0, IntKind::DecFixed(1, 0));
+	crate::verif::stack_node!(d = nodes::dec_fixed(1, 0));
+	cell_int::<i32>(kani::any(), d, IntKind::DecFixed(1, 0));
 }
 
 // @harness props=C02,C01 tier=quick timeout=900
@@ -827,7 +860,8 @@ fn c02_int_i32_decf1_0() {
 #[kani::unwind(18)]
 #[kani::stub(alloc::fmt::format, crate::verif::stub_format)]
 fn c02_int_i64_decf1_0() {
-	cell_int::<i64>(kani::any(), &nodes::DEC_FIXED1_S0, IntKind::DecFixed(1, 0));
+	crate::verif::stack_node!(d = nodes::dec_fixed(1, 0));
+	cell_int::<i64>(kani::any(), d, IntKind::DecFixed(1, 0));
 }
 
 // @harness props=C02,C01 tier=quick timeout=900
@@ -836,7 +870,8 @@ fn c02_int_i64_decf1_0() {
 #[kani::unwind(18)]
 #[kani::stub(alloc::fmt::format, crate::verif::stub_format)]
 fn c02_int_i128_decf1_0() {
-	cell_int::<i128>(kani::any(), &nodes::DEC_FIXED1_S0, IntKind::DecFixed(1, 0));
+	crate::verif::stack_node!(d = nodes::dec_fixed(1, 0));
+	cell_int::<i128>(kani::any(), d, IntKind::DecFixed(1, 0));
 }
 
 // @harness props=C02,C01 tier=quick timeout=900
@@ -845,7 +880,8 @@ fn c02_int_i128_decf1_0() {
 #[kani::unwind(18)]
 #[kani::stub(alloc::fmt::format, crate::verif::stub_format)]
 fn c02_int_u8_decf1_0() {
-	cell_int::<u8>(kani::any(), &nodes::DEC_FIXED1_S0, IntKind::DecFixed(1, 0));
+	crate::verif::stack_node!(d = nodes::dec_fixed(1, 0));
+	cell_int::<u8>(kani::any(), d, IntKind::DecFixed(1, 0));
 }
 
 // @harness props=C02,C01 tier=thorough timeout=900
@@ -854,7 +890,8 @@ fn c02_int_u8_decf1_0() {
 #[kani::unwind(18)]
 #[kani::stub(alloc::fmt::format, crate::verif::stub_format)]
 fn c02_int_u16_decf1_0() {
-	cell_int::<u16>(kani::any(), &nodes::DEC_FIXED1_S0, IntKind::DecFixed(1, 0));
+	crate::verif::stack_node!(d = nodes::dec_fixed(1, 0));
+	cell_int::<u16>(kani::any(), d, IntKind::DecFixed(1, 0));
 }
 
 // @harness props=C02,C01 tier=thorough timeout=900
@@ -863,7 +900,8 @@ fn c02_int_u16_decf1_0() {
 #[kani::unwind(18)]
 #[kani::stub(alloc::fmt::format, crate::verif::stub_format)]
 fn c02_int_u32_decf1_0() {
-	cell_int::<u32>(kani::any(), &nodes::DEC_FIXED1_S0, IntKind::DecFixed(1, 0));
+	crate::verif::stack_node!(d = nodes::dec_fixed(1, 0));
+	cell_int::<u32>(kani::any(), d, IntKind::DecFixed(1, 0));
 }
 
 // @harness props=C02,C01 tier=quick timeout=900
@@ -872,7 +910,8 @@ fn c02_int_u32_decf1_0() {
 #[kani::unwind(18)]
 #[kani::stub(alloc::fmt::format, crate::verif::stub_format)]
 fn c02_int_u64_decf1_0() {
-	cell_int::<u64>(kani::any(), &nodes::DEC_FIXED1_S0, IntKind::DecFixed(1, 0));
+	crate::verif::stack_node!(d = nodes::dec_fixed(1, 0));
+	cell_int::<u64>(kani::any(), d, IntKind::DecFixed(1, 0));
 }
 
 // @harness props=C02,C01 tier=thorough timeout=900
@@ -881,7 +920,8 @@ fn c02_int_u64_decf1_0() {
 #[kani::unwind(18)]
 #[kani::stub(alloc::fmt::format, crate::verif::stub_format)]
 fn c02_int_u128_decf1_0() {
-	cell_int::<u128>(kani::any(), &nodes::DEC_FIXED1_S0, IntKind::DecFixed(1, 0));
+	crate::verif::stack_node!(d = nodes::dec_fixed(1, 0));
+	cell_int::<u128>(kani::any(), d, IntKind::DecFixed(1, 0));
 }
 
 // @harness props=C02,C01 tier=thorough timeout=900
@@ -890,7 +930,8 @@ fn c02_int_u128_decf1_0() {
 #[kani::unwind(18)]
 #[kani::stub(alloc::fmt::format, crate::verif::stub_format)]
 fn c02_int_i8_decf2_0() {
-	cell_int::<i8>(kani::any(), &nodes::DEC_FIXED2_S0, IntKind::DecFixed(2, 0));
+	crate::verif::stack_node!(d = nodes::dec_fixed(2, 0));
+	cell_int::<i8>(kani::any(), d, IntKind::DecFixed(2, 0));
 }
 
 // @harness props=C02,C01 tier=thorough timeout=900
@@ -899,7 +940,8 @@ fn c02_int_i8_decf2_0() {
 #[kani::unwind(18)]
 #[kani::stub(alloc::fmt::format, crate::verif::stub_format)]
 fn c02_int_i16_decf2_0() {
-	cell_int::<i16>(kani::any(), &nodes::DEC_FIXED2_S0, IntKind::DecFixed(2, 0));
+	crate::verif::stack_node!(d = nodes::dec_fixed(2, 0));
+	cell_int::<i16>(kani::any(), d, IntKind::DecFixed(2, 0));
 }
 
 // @harness props=C02,C01 tier=thorough timeout=900
@@ -908,7 +950,8 @@ fn c02_int_i16_decf2_0() {
 #[kani::unwind(18)]
 #[kani::stub(alloc::fmt::format, crate::verif::stub_format)]
 fn c02_int_i32_decf2_0() {
-	cell_int::<i32>(kani::any(), &nodes::DEC_FIXED2_S0, IntKind::DecFixed(2, 0));
+	crate::verif::stack_node!(d = nodes::dec_fixed(2, 0));
+	cell_int::<i32>(kani::any(), d, IntKind::DecFixed(2, 0));
 }
 
 // @harness props=C02,C01 tier=thorough timeout=900
@@ -917,7 +960,8 @@ fn c02_int_i32_decf2_0() {
 #[kani::unwind(18)]
 #[kani::stub(alloc::fmt::format, crate::verif::stub_format)]
 fn c02_int_i64_decf2_0() {
-	cell_int::<i64>(kani::any(), &nodes::DEC_FIXED2_S0, IntKind::DecFixed(2, 0));
+	crate::verif::stack_node!(d = nodes::dec_fixed(2, 0));
+	cell_int::<i64>(kani::any(), d, IntKind::DecFixed(2, 0));
 }
 
 // @harness props=C02,C01 tier=thorough timeout=900
@@ -926,7 +970,8 @@ fn c02_int_i64_decf2_0() {
 #[kani::unwind(18)]
 #[kani::stub(alloc::fmt::format, crate::verif::stub_format)]
 fn c02_int_i128_decf2_0() {
-	cell_int::<i128>(kani::any(), &nodes::DEC_FIXED2_S0, IntKind::DecFixed(2, 0));
+	crate::verif::stack_node!(d = nodes::dec_fixed(2, 0));
+	cell_int::<i128>(kani::any(), d, IntKind::DecFixed(2, 0));
 }
 
 // @harness props=C02,C01 tier=thorough timeout=900
@@ -935,7 +980,8 @@ fn c02_int_i128_decf2_0() {
 #[kani::unwind(18)]
 #[kani::stub(alloc::fmt::format, crate::verif::stub_format)]
 fn c02_int_u8_decf2_0() {
-	cell_int::<u8>(kani::any(), &nodes::DEC_FIXED2_S0, IntKind::DecFixed(2, 0));
+	crate::verif::stack_node!(d = nodes::dec_fixed(2, 0));
+	cell_int::<u8>(kani::any(), d, IntKind::DecFixed(2, 0));
 }
 
 // @harness props=C02,C01 tier=thorough timeout=900
@@ -944,7 +990,8 @@ fn c02_int_u8_decf2_0() {
 #[kani::unwind(18)]
 #[kani::stub(alloc::fmt::format, crate::verif::stub_format)]
 fn c02_int_u16_decf2_0() {
-	cell_int::<u16>(kani::any(), &nodes::DEC_FIXED2_S0, IntKind::DecFixed(2, 0));
+	crate::verif::stack_node!(d = nodes::dec_fixed(2, 0));
+	cell_int::<u16>(kani::any(), d, IntKind::DecFixed(2, 0));
 }
 
 // @harness props=C02,C01 tier=thorough timeout=900
@@ -953,7 +1000,8 @@ fn c02_int_u16_decf2_0() {
 #[kani::unwind(18)]
 #[kani::stub(alloc::fmt::format, crate::verif::stub_format)]
 fn c02_int_u32_decf2_0() {
-	cell_int::<u32>(kani::any(), &nodes::DEC_FIXED2_S0, IntKind::DecFixed(2, 0));
+	crate::verif::stack_node!(d = nodes::dec_fixed(2, 0));
+	cell_int::<u32>(kani::any(), d, IntKind::DecFixed(2, 0));
 }
 
 // @harness props=C02,C01 tier=thorough timeout=900
@@ -962,7 +1010,8 @@ fn c02_int_u32_decf2_0() {
 #[kani::unwind(18)]
 #[kani::stub(alloc::fmt::format, crate::verif::stub_format)]
 fn c02_int_u64_decf2_0() {
-	cell_int::<u64>(kani::any(), &nodes::DEC_FIXED2_S0, IntKind::DecFixed(2, 0));
+	crate::verif::stack_node!(d = nodes::dec_fixed(2, 0));
+	cell_int::<u64>(kani::any(), d, IntKind::DecFixed(2, 0));
 }
 
 // @harness props=C02,C01 tier=thorough timeout=900
@@ -971,7 +1020,8 @@ fn c02_int_u64_decf2_0() {
 #[kani::unwind(18)]
 #[kani::stub(alloc::fmt::format, crate::verif::stub_format)]
 fn c02_int_u128_decf2_0() {
-	cell_int::<u128>(kani::any(), &nodes::DEC_FIXED2_S0, IntKind::DecFixed(2, 0));
+	crate::verif::stack_node!(d = nodes::dec_fixed(2, 0));
+	cell_int::<u128>(kani::any(), d, IntKind::DecFixed(2, 0));
 }
 
 // @harness props=C02,C01 tier=thorough timeout=900
@@ -980,7 +1030,8 @@ fn c02_int_u128_decf2_0() {
 #[kani::unwind(18)]
 #[kani::stub(alloc::fmt::format, crate::verif::stub_format)]
 fn c02_int_i8_decf8_0() {
-	cell_int::<i8>(kani::any(), &nodes::DEC_FIXED8_S0, IntKind::DecFixed(8, 0));
+	crate::verif::stack_node!(d = nodes::dec_fixed(8, 0));
+	cell_int::<i8>(kani::any(), d, IntKind::DecFixed(8, 0));
 }
 
 // @harness props=C02,C01 tier=thorough timeout=900
@@ -989,7 +1040,8 @@ fn c02_int_i8_decf8_0() {
 #[kani::unwind(18)]
 #[kani::stub(alloc::fmt::format, crate::verif::stub_format)]
 fn c02_int_i16_decf8_0() {
-	cell_int::<i16>(kani::any(), &nodes::DEC_FIXED8_S0, IntKind::DecFixed(8, 0));
+	crate::verif::stack_node!(d = nodes::dec_fixed(8, 0));
+	cell_int::<i16>(kani::any(), d, IntKind::DecFixed(8, 0));
 }
 
 // @harness props=C02,C01 tier=thorough timeout=900
@@ -998,7 +1050,8 @@ fn c02_int_i16_decf8_0() {
 #[kani::unwind(18)]
 #[kani::stub(alloc::fmt::format, crate::verif::stub_format)]
 fn c02_int_i32_decf8_0() {
-	cell_int::<i32>(kani::any(), &nodes::DEC_FIXED8_S0, IntKind::DecFixed(8, 0));
+	crate::verif::stack_node!(d = nodes::dec_fixed(8, 0));
+	cell_int::<i32>(kani::any(), d, IntKind::DecFixed(8, 0));
 }
 
 // @harness props=C02,C01 tier=thorough timeout=900
@@ -1007,7 +1060,8 @@ fn c02_int_i32_decf8_0() {
 #[kani::unwind(18)]
 #[kani::stub(alloc::fmt::format, crate::verif::stub_format)]
 fn c02_int_i64_decf8_0() {
-	cell_int::<i64>(kani::any(), &nodes::DEC_FIXED8_S0, IntKind::DecFixed(8, 0));
+	crate::verif::stack_node!(d = nodes::dec_fixed(8, 0));
+	cell_int::<i64>(kani::any(), d, IntKind::DecFixed(8, 0));
 }
 
 // @harness props=C02,C01 tier=thorough timeout=900
@@ -1016,7 +1070,8 @@ fn c02_int_i64_decf8_0() {
 #[kani::unwind(18)]
 #[kani::stub(alloc::fmt::format, crate::verif::stub_format)]
 fn c02_int_i128_decf8_0() {
-	cell_int::<i128>(kani::any(), &nodes::DEC_FIXED8_S0, IntKind::DecFixed(8, 0));
+	crate::verif::stack_node!(d = nodes::dec_fixed(8, 0));
+	cell_int::<i128>(kani::any(), d, IntKind::DecFixed(8, 0));
 }
 
 // @harness props=C02,C01 tier=thorough timeout=900
@@ -1025,7 +1080,8 @@ fn c02_int_i128_decf8_0() {
 #[kani::unwind(18)]
 #[kani::stub(alloc::fmt::format, crate::verif::stub_format)]
 fn c02_int_u8_decf8_0() {
-	cell_int::<u8>(kani::any(), &nodes::DEC_FIXED8_S0, IntKind::DecFixed(8, 0));
+	crate::verif::stack_node!(d = nodes::dec_fixed(8, 0));
+	cell_int::<u8>(kani::any(), d, IntKind::DecFixed(8, 0));
 }
 
 // @harness props=C02,C01 tier=thorough timeout=900
@@ -1034,7 +1090,8 @@ fn c02_int_u8_decf8_0() {
 #[kani::unwind(18)]
 #[kani::stub(alloc::fmt::format, crate::verif::stub_format)]
 fn c02_int_u16_decf8_0() {
-	cell_int::<u16>(kani::any(), &nodes::DEC_FIXED8_S0, IntKind::DecFixed(8, 0));
+	crate::verif::stack_node!(d = nodes::dec_fixed(8, 0));
+	cell_int::<u16>(kani::any(), d, IntKind::DecFixed(8, 0));
 }
 
 // @harness props=C02,C01 tier=thorough timeout=900
@@ -1043,7 +1100,8 @@ fn c02_int_u16_decf8_0() {
 #[kani::unwind(18)]
 #[kani::stub(alloc::fmt::format, crate::verif::stub_format)]
 fn c02_int_u32_decf8_0() {
-	cell_int::<u32>(kani::any(), &nodes::DEC_FIXED8_S0, IntKind::DecFixed(8, 0));
+	crate::verif::stack_node!(d = nodes::dec_fixed(8, 0));
+	cell_int::<u32>(kani::any(), d, IntKind::DecFixed(8, 0));
 }
 
 // @harness props=C02,C01 tier=thorough timeout=900
@@ -1052,7 +1110,8 @@ fn c02_int_u32_decf8_0() {
 #[kani::unwind(18)]
 #[kani::stub(alloc::fmt::format, crate::verif::stub_format)]
 fn c02_int_u64_decf8_0() {
-	cell_int::<u64>(kani::any(), &nodes::DEC_FIXED8_S0, IntKind::DecFixed(8, 0));
+	crate::verif::stack_node!(d = nodes::dec_fixed(8, 0));
+	cell_int::<u64>(kani::any(), d, IntKind::DecFixed(8, 0));
 }
 
 // @harness props=C02,C01 tier=thorough timeout=900
@@ -1061,7 +1120,8 @@ fn c02_int_u64_decf8_0() {
 #[kani::unwind(18)]
 #[kani::stub(alloc::fmt::format, crate::verif::stub_format)]
 fn c02_int_u128_decf8_0() {
-	cell_int::<u128>(kani::any(), &nodes::DEC_FIXED8_S0, IntKind::DecFixed(8, 0));
+	crate::verif::stack_node!(d = nodes::dec_fixed(8, 0));
+	cell_int::<u128>(kani::any(), d, IntKind::DecFixed(8, 0));
 }
 
 // @harness props=C02,C01 tier=thorough timeout=900
@@ -1070,7 +1130,8 @@ fn c02_int_u128_decf8_0() {
 #[kani::unwind(18)]
 #[kani::stub(alloc::fmt::format, crate::verif::stub_format)]
 fn c02_int_i8_decf16_0() {
-	cell_int::<i8>(kani::any(), &nodes::DEC_FIXED16_S0, IntKind::DecFixed(16, 0));
+	crate::verif::stack_node!(d = nodes::dec_fixed(16, 0));
+	cell_int::<i8>(kani::any(), d, IntKind::DecFixed(16, 0));
 }
 
 // @harness props=C02,C01 tier=thorough timeout=900
@@ -1079,7 +1140,8 @@ fn c02_int_i8_decf16_0() {
 #[kani::unwind(18)]
 #[kani::stub(alloc::fmt::format, crate::verif::stub_format)]
 fn c02_int_i16_decf16_0() {
-	cell_int::<i16>(kani::any(), &nodes::DEC_FIXED16_S0, IntKind::DecFixed(16, 0));
+	crate::verif::stack_node!(d = nodes::dec_fixed(16, 0));
+	cell_int::<i16>(kani::any(), d, IntKind::DecFixed(16, 0));
 }
 
 // @harness props=C02,C01 tier=thorough timeout=900
@@ -1088,7 +1150,8 @@ fn c02_int_i16_decf16_0() {
 #[kani::unwind(18)]
 #[kani::stub(alloc::fmt::format, crate::verif::stub_format)]
 fn c02_int_i32_decf16_0() {
-	cell_int::<i32>(kani::any(), &nodes::DEC_FIXED16_S0, IntKind::DecFixed(16, 0));
+	crate::verif::stack_node!(d = nodes::dec_fixed(16, 0));
+	cell_int::<i32>(kani::any(), d, IntKind::DecFixed(16, 0));
 }
 
 // @harness props=C02,C01 tier=thorough timeout=900
@@ -1097,7 +1160,8 @@ fn c02_int_i32_decf16_0() {
 #[kani::unwind(18)]
 #[kani::stub(alloc::fmt::format, crate::verif::stub_format)]
 fn c02_int_i64_decf16_0() {
-	cell_int::<i64>(kani::any(), &nodes::DEC_FIXED16_S0, IntKind::DecFixed(16, 0));
+	crate::verif::stack_node!(d = nodes::dec_fixed(16, 0));
+	cell_int::<i64>(kani::any(), d, IntKind::DecFixed(16, 0));
 }
 
 // @harness props=C02,C01 tier=thorough timeout=900
@@ -1106,7 +1170,8 @@ fn c02_int_i64_decf16_0() {
 #[kani::unwind(18)]
 #[kani::stub(alloc::fmt::format, crate::verif::stub_format)]
 fn c02_int_i128_decf16_0() {
-	cell_int::<i128>(kani::any(), &nodes::DEC_FIXED16_S0, IntKind::DecFixed(16, 0));
+	crate::verif::stack_node!(d = nodes::dec_fixed(16, 0));
+	cell_int::<i128>(kani::any(), d, IntKind::DecFixed(16, 0));
 }
 
 // @harness props=C02,C01 tier=thorough timeout=900
@@ -1115,7 +1180,8 @@ fn c02_int_i128_decf16_0() {
 #[kani::unwind(18)]
 #[kani::stub(alloc::fmt::format, crate::verif::stub_format)]
 fn c02_int_u8_decf16_0() {
-	cell_int::<u8>(kani::any(), &nodes::DEC_FIXED16_S0, IntKind::DecFixed(16, 0));
+	crate::verif::stack_node!(d = nodes::dec_fixed(16, 0));
+	cell_int::<u8>(kani::any(), d, IntKind::DecFixed(16, 0));
 }
 
 // @harness props=C02,C01 tier=thorough timeout=900
@@ -1124,7 +1190,8 @@ fn c02_int_u8_decf16_0() {
 #[kani::unwind(18)]
 #[kani::stub(alloc::fmt::format, crate::verif::stub_format)]
 fn c02_int_u16_decf16_0() {
-	cell_int::<u16>(kani::any(), &nodes::DEC_FIXED16_S0, IntKind::DecFixed(16, 0));
+	crate::verif::stack_node!(d = nodes::dec_fixed(16, 0));
+	cell_int::<u16>(kani::any(), d, IntKind::DecFixed(16, 0));
 }
 
 // @harness props=C02,C01 tier=thorough timeout=900
@@ -1133,7 +1200,8 @@ fn c02_int_u16_decf16_0() {
 #[kani::unwind(18)]
 #[kani::stub(alloc::fmt::format, crate::verif::stub_format)]
 fn c02_int_u32_decf16_0() {
-	cell_int::<u32>(kani::any(), &nodes::DEC_FIXED16_S0, IntKind::DecFixed(16, 0));
+	crate::verif::stack_node!(d = nodes::dec_fixed(16, 0));
+	cell_int::<u32>(kani::any(), d, IntKind::DecFixed(16, 0));
 }
 
 // @harness props=C02,C01 tier=thorough timeout=900
@@ -1142,7 +1210,8 @@ fn c02_int_u32_decf16_0() {
 #[kani::unwind(18)]
 #[kani::stub(alloc::fmt::format, crate::verif::stub_format)]
 fn c02_int_u64_decf16_0() {
-	cell_int::<u64>(kani::any(), &nodes::DEC_FIXED16_S0, IntKind::DecFixed(16, 0));
+	crate::verif::stack_node!(d = nodes::dec_fixed(16, 0));
+	cell_int::<u64>(kani::any(), d, IntKind::DecFixed(16, 0));
 }
 
 // @harness props=C02,C01 tier=thorough timeout=900
@@ -1151,7 +1220,8 @@ fn c02_int_u64_decf16_0() {
 #[kani::unwind(18)]
 #[kani::stub(alloc::fmt::format, crate::verif::stub_format)]
 fn c02_int_u128_decf16_0() {
-	cell_int::<u128>(kani::any(), &nodes::DEC_FIXED16_S0, IntKind::DecFixed(16, 0));
+	crate::verif::stack_node!(d = nodes::dec_fixed(16, 0));
+	cell_int::<u128>(kani::any(), d, IntKind::DecFixed(16, 0));
 }
 
 // @harness props=C02,C01 tier=thorough timeout=900
@@ -1160,7 +1230,8 @@ fn c02_int_u128_decf16_0() {
 #[kani::unwind(18)]
 #[kani::stub(alloc::fmt::format, crate::verif::stub_format)]
 fn c02_int_i8_decf17_0() {
-	cell_int::<i8>(kani::any(), &nodes::DEC_FIXED17_S0, IntKind::DecFixed(17, 0));
+	crate::verif::stack_node!(d = nodes::dec_fixed(17, 0));
+	cell_int::<i8>(kani::any(), d, IntKind::DecFixed(17, 0));
 }
 
 // @harness props=C02,C01 tier=thorough timeout=900
@@ -1169,7 +1240,8 @@ fn c02_int_i8_decf17_0() {
 #[kani::unwind(18)]
 #[kani::stub(alloc::fmt::format, crate::verif::stub_format)]
 fn c02_int_i16_decf17_0() {
-	cell_int::<i16>(kani::any(), &nodes::DEC_FIXED17_S0, IntKind::DecFixed(17, 0));
+	crate::verif::stack_node!(d = nodes::dec_fixed(17, 0));
+	cell_int::<i16>(kani::any(), d, IntKind::DecFixed(17, 0));
 }
 
 // @harness props=C02,C01 tier=thorough timeout=900
@@ -1178,7 +1250,8 @@ fn c02_int_i16_decf17_0() {
 #[kani::unwind(18)]
 #[kani::stub(alloc::fmt::format, crate::verif::stub_format)]
 fn c02_int_i32_decf17_0() {
-	cell_int::<i32>(kani::any(), &nodes::DEC_FIXED17_S0, IntKind::DecFixed(17, 0));
+	crate::verif::stack_node!(d = nodes::dec_fixed(17, 0));
+	cell_int::<i32>(kani::any(), d, IntKind::DecFixed(17, 0));
 }
 
 // @harness props=C02,C01 tier=thorough timeout=900
@@ -1187,7 +1260,8 @@ fn c02_int_i32_decf17_0() {
 #[kani::unwind(18)]
 #[kani::stub(alloc::fmt::format, crate::verif::stub_format)]
 fn c02_int_i64_decf17_0() {
-	cell_int::<i64>(kani::any(), &nodes::DEC_FIXED17_S0, IntKind::DecFixed(17, 0));
+	crate::verif::stack_node!(d = nodes::dec_fixed(17, 0));
+	cell_int::<i64>(kani::any(), d, IntKind::DecFixed(17, 0));
 }
 
 // @harness props=C02,C01 tier=thorough timeout=900
@@ -1196,7 +1270,8 @@ fn c02_int_i64_decf17_0() {
 #[kani::unwind(18)]
 #[kani::stub(alloc::fmt::format, crate::verif::stub_format)]
 fn c02_int_i128_decf17_0() {
-	cell_int::<i128>(kani::any(), &nodes::DEC_FIXED17_S0, IntKind::DecFixed(17, 0));
+	crate::verif::stack_node!(d = nodes::dec_fixed(17, 0));
+	cell_int::<i128>(kani::any(), d, IntKind::DecFixed(17, 0));
 }
 
 // @harness props=C02,C01 tier=thorough timeout=900
@@ -1205,7 +1280,8 @@ fn c02_int_i128_decf17_0() {
 #[kani::unwind(18)]
 #[kani::stub(alloc::fmt::format, crate::verif::stub_format)]
 fn c02_int_u8_decf17_0() {
-	cell_int::<u8>(kani::any(), &nodes::DEC_FIXED17_S0, IntKind::DecFixed(17, 0));
+	crate::verif::stack_node!(d = nodes::dec_fixed(17, 0));
+	cell_int::<u8>(kani::any(), d, IntKind::DecFixed(17, 0));
 }
 
 // @harness props=C02,C01 tier=thorough timeout=900
@@ -1214,7 +1290,8 @@ fn c02_int_u8_decf17_0() {
 #[kani::unwind(18)]
 #[kani::stub(alloc::fmt::format, crate::verif::stub_format)]
 fn c02_int_u16_decf17_0() {
-	cell_int::<u16>(kani::any(), &nodes::DEC_FIXED17_S0, IntKind::DecFixed(17, 0));
+	crate::verif::stack_node!(d = nodes::dec_fixed(17, 0));
+	cell_int::<u16>(kani::any(), d, IntKind::DecFixed(17, 0));
 }
 
 // @harness props=C02,C01 tier=thorough timeout=900
@@ -1223,7 +1300,8 @@ fn c02_int_u16_decf17_0() {
 #[kani::unwind(18)]
 #[kani::stub(alloc::fmt::format, crate::verif::stub_format)]
 fn c02_int_u32_decf17_0() {
-	cell_int::<u32>(kani::any(), &nodes::DEC_FIXED17_S0, IntKind::DecFixed(17, 0));
+	crate::verif::stack_node!(d = nodes::dec_fixed(17, 0));
+	cell_int::<u32>(kani::any(), d, IntKind::DecFixed(17, 0));
 }
 
 // @harness props=C02,C01 tier=thorough timeout=900
@@ -1232,7 +1310,8 @@ fn c02_int_u32_decf17_0() {
 #[kani::unwind(18)]
 #[kani::stub(alloc::fmt::format, crate::verif::stub_format)]
 fn c02_int_u64_decf17_0() {
-	cell_int::<u64>(kani::any(), &nodes::DEC_FIXED17_S0, IntKind::DecFixed(17, 0));
+	crate::verif::stack_node!(d = nodes::dec_fixed(17, 0));
+	cell_int::<u64>(kani::any(), d, IntKind::DecFixed(17, 0));
 }
 
 // @harness props=C02,C01 tier=thorough timeout=900
@@ -1241,7 +1320,8 @@ fn c02_int_u64_decf17_0() {
 #[kani::unwind(18)]
 #[kani::stub(alloc::fmt::format, crate::verif::stub_format)]
 fn c02_int_u128_decf17_0() {
-	cell_int::<u128>(kani::any(), &nodes::DEC_FIXED17_S0, IntKind::DecFixed(17, 0));
+	crate::verif::stack_node!(d = nodes::dec_fixed(17, 0));
+	cell_int::<u128>(kani::any(), d, IntKind::DecFixed(17, 0));
 }
 
 // @harness props=C02,C01 tier=thorough timeout=900
@@ -1250,7 +1330,8 @@ fn c02_int_u128_decf17_0() {
 #[kani::unwind(18)]
 #[kani::stub(alloc::fmt::format, crate::verif::stub_format)]
 fn c02_int_i8_decf2_1() {
-	cell_int::<i8>(kani::any(), &nodes::DEC_FIXED2_S1, IntKind::DecFixed(2, 1));
+	crate::verif::stack_node!(d = nodes::dec_fixed(2, 1));
+	cell_int::<i8>(kani::any(), d, IntKind::DecFixed(2, 1));
 }
 
 // @harness props=C02,C01 tier=thorough timeout=900
@@ -1259,7 +1340,8 @@ fn c02_int_i8_decf2_1() {
 #[kani::unwind(18)]
 #[kani::stub(alloc::fmt::format, crate::verif::stub_format)]
 fn c02_int_i16_decf2_1() {
-	cell_int::<i16>(kani::any(), &nodes::DEC_FIXED2_S1, IntKind::DecFixed(2, 1));
+	crate::verif::stack_node!(d = nodes::dec_fixed(2, 1));
+	cell_int::<i16>(kani::any(), d, IntKind::DecFixed(2, 1));
 }
 
 // @harness props=C02,C01 tier=quick timeout=900
@@ -1268,7 +1350,8 @@ fn c02_int_i16_decf2_1() {
 #[kani::unwind(18)]
 #[kani::stub(alloc::fmt::format, crate::verif::stub_format)]
 fn c02_int_i32_decf2_1() {
-	cell_int::<i32>(kani::any(), &nodes::DEC_FIXED2_S1, IntKind::DecFixed(2, 1));
+	crate::verif::stack_node!(d = nodes::dec_fixed(2, 1));
+	cell_int::<i32>(kani::any(), d, IntKind::DecFixed(2, 1));
 }
 
 // @harness props=C02,C01 tier=quick timeout=900
@@ -1277,7 +1360,8 @@ fn c02_int_i32_decf2_1() {
 #[kani::unwind(18)]
 #[kani::stub(alloc::fmt::format, crate::verif::stub_format)]
 fn c02_int_i64_decf2_1() {
-	cell_int::<i64>(kani::any(), &nodes::DEC_FIXED2_S1, IntKind::DecFixed(2, 1));
+	crate::verif::stack_node!(d = nodes::dec_fixed(2, 1));
+	cell_int::<i64>(kani::any(), d, IntKind::DecFixed(2, 1));
 }
 
 // @harness props=C02,C01 tier=quick timeout=900
@@ -1286,7 +1370,8 @@ fn c02_int_i64_decf2_1() {
 #[kani::unwind(18)]
 #[kani::stub(alloc::fmt::format, crate::verif::stub_format)]
 fn c02_int_i128_decf2_1() {
-	cell_int::<i128>(kani::any(), &nodes::DEC_FIXED2_S1, IntKind::DecFixed(2, 1));
+	crate::verif::stack_node!(d = nodes::dec_fixed(2, 1));
+	cell_int::<i128>(kani::any(), d, IntKind::DecFixed(2, 1));
 }
 
 // @harness props=C02,C01 tier=quick timeout=900
@@ -1295,7 +1380,8 @@ fn c02_int_i128_decf2_1() {
 #[kani::unwind(18)]
 #[kani::stub(alloc::fmt::format, crate::verif::stub_format)]
 fn c02_int_u8_decf2_1() {
-	cell_int::<u8>(kani::any(), &nodes::DEC_FIXED2_S1, IntKind::DecFixed(2, 1));
+	crate::verif::stack_node!(d = nodes::dec_fixed(2, 1));
+	cell_int::<u8>(kani::any(), d, IntKind::DecFixed(2, 1));
 }
 
 // @harness props=C02,C01 tier=thorough timeout=900
@@ -1304,7 +1390,8 @@ fn c02_int_u8_decf2_1() {
 #[kani::unwind(18)]
 #[kani::stub(alloc::fmt::format, crate::verif::stub_format)]
 fn c02_int_u16_decf2_1() {
-	cell_int::<u16>(kani::any(), &nodes::DEC_FIXED2_S1, IntKind::DecFixed(2, 1));
+	crate::verif::stack_node!(d = nodes::dec_fixed(2, 1));
+	cell_int::<u16>(kani::any(), d, IntKind::DecFixed(2, 1));
 }
 
 // @harness props=C02,C01 tier=thorough timeout=900
@@ -1313,7 +1400,8 @@ fn c02_int_u16_decf2_1() {
 #[kani::unwind(18)]
 #[kani::stub(alloc::fmt::format, crate::verif::stub_format)]
 fn c02_int_u32_decf2_1() {
-	cell_int::<u32>(kani::any(), &nodes::DEC_FIXED2_S1, IntKind::DecFixed(2, 1));
+	crate::verif::stack_node!(d = nodes::dec_fixed(2, 1));
+	cell_int::<u32>(kani::any(), d, IntKind::DecFixed(2, 1));
 }
 
 // @harness props=C02,C01 tier=quick timeout=900
@@ -1322,7 +1410,8 @@ fn c02_int_u32_decf2_1() {
 #[kani::unwind(18)]
 #[kani::stub(alloc::fmt::format, crate::verif::stub_format)]
 fn c02_int_u64_decf2_1() {
-	cell_int::<u64>(kani::any(), &nodes::DEC_FIXED2_S1, IntKind::DecFixed(2, 1));
+	crate::verif::stack_node!(d = nodes::dec_fixed(2, 1));
+	cell_int::<u64>(kani::any(), d, IntKind::DecFixed(2, 1));
 }
 
 // @harness props=C02,C01 tier=thorough timeout=900
@@ -1331,5 +1420,6 @@ fn c02_int_u64_decf2_1() {
 #[kani::unwind(18)]
 #[kani::stub(alloc::fmt::format, crate::verif::stub_format)]
 fn c02_int_u128_decf2_1() {
-	cell_int::<u128>(kani::any(), &nodes::DEC_FIXED2_S1, IntKind::DecFixed(2, 1));
+	crate::verif::stack_node!(d = nodes::dec_fixed(2, 1));
+	cell_int::<u128>(kani::any(), d, IntKind::DecFixed(2, 1));
 }
